@@ -29,7 +29,7 @@ PROPS = {
     "C16": {"quick": [J("^vhC16_.*2$", samples=2, native=False)], "thorough": [J("^vhC16_.*3$", samples=2, native=False)], "bounds": {}, "assumptions": []},
     "C10": {"quick": [J("^vhC10_seq_.*_K4$", samples=3)], "thorough": [J("^vhC10_seq_.*_K5$", samples=6)],
             "bounds": {"ops_quick": 4, "ops_thorough": 5, "subscribers": 3}, "assumptions": []},
-    "C04": {"quick": [J("^vhC04_ref_L3$", samples=8)], "thorough": [J("^vhC04_ref_L(3|4)$", samples=16)],
+    "C04": {"quick": [J("^vhC04_(ref_L3|variants_L2|blocking_L2)$", samples=8)], "thorough": [J("^vhC04_(ref_L4|variants_L3|blocking_L3)$", samples=16)],
             "bounds": {"script_length_quick": 3, "script_length_thorough": 4}, "assumptions": []},
 }
 
